@@ -329,6 +329,7 @@ Definition ep_set_factors (s : bst) (c : Z) (f : factors) : result (bst * bout) 
   check admin c else EPerm;
   check (0 <=? fa_max f) && (0 <=? fa_ce f) && (0 <=? fa_cf f) else EGuard;       (* BigUint arguments *)
   check (0 <? fa_mine f) && (0 <? fa_minf f) else EGuard;                         (* "Min amounts must be greater than 0" *)
+  check (0 <? fa_ce f) || (0 <? fa_cf f) else EGuard;                             (* "Rewards constants cannot both be 0" *)
   do cw <- current_week s;
   do c' <- match bh_cfg (b_h s) with
            | Some cfg => cfg_update cfg cw (Some f)
